@@ -26,6 +26,7 @@ An event is a dict
     {'i': global call index (0-based, over all threads), 'call': kind, 'con': small integer id of the connection
      (order of creation), 'sql': text or None, 'kind': `classify_sql(sql)` or None, 'thread': thread name,
      'outcome': 'ok' | exception class name, 'injected': bool}
+A connection gets its id when it has really been opened; the `connect` event of a failed connect has 'con': None.
 `fetch*`, `create_function`, attribute access are not DB-API calls of the quantifier and are not traced.
 
 Fault schedule
@@ -100,7 +101,8 @@ class Tracer(object):
         self._next = 0
         self._ncons = 0
         self._faults = list(faults)
-        self.connections = []            # every TracingConnection ever constructed (strong refs: ids stay valid)
+        self.connections = []            # every TracingConnection really opened (strong refs: ids stay valid)
+        self.lock_waits = []             # [thread name, 'acquire'|'pre_acquire'] of lock acquisitions in progress
         tracer = self
 
         class TracingCursor(sqlite3.Cursor):
@@ -111,15 +113,16 @@ class Tracer(object):
 
         class TracingConnection(sqlite3.Connection):
             def __init__(self, *args, **kwargs):
-                with tracer._lock:
-                    self.trace_id = tracer._ncons; tracer._ncons += 1
+                self.trace_id = None         # assigned when the connection has really been opened
                 self.trace_closed = 0        # number of close() calls made on this connection
                 self.trace_opened = False
                 def real():
                     sqlite3.Connection.__init__(self, *args, **kwargs)
                     self.trace_opened = True
+                    with tracer._lock:
+                        self.trace_id = tracer._ncons; tracer._ncons += 1
+                        tracer.connections.append(self)
                 tracer._call('connect', self, None, real)
-                tracer.connections.append(self)
             def cursor(self, *args):
                 return tracer._call('cursor', self, None, lambda: sqlite3.Connection.cursor(self, *(args or (TracingCursor,))))
             def execute(self, sql, *args):
@@ -204,8 +207,25 @@ class Tracer(object):
             for h in list(self.after_call): h(ev)
             raise
         ev['outcome'] = 'ok'
+        if call == 'connect': ev['con'] = getattr(con, 'trace_id', None)
         for h in list(self.after_call): h(ev)
         return result
+
+    # ---- provider locks ------------------------------------------------------------------------------------------
+    def wrap_locks(self, provider):
+        """replace `provider.pre_transaction_lock` / `provider.transaction_lock` (instance attributes of SQLiteProvider)
+        by recording wrappers around the same lock objects.  Lock events go into `events` as
+        {'i': None, 'call': 'pre_acquire'|'pre_release'|'acquire'|'release', 'thread': ..., 'outcome': 'ok'|exception}
+        (an acquire is recorded when it RETURNS; `lock_waits` lists [thread, lock name] of acquires that are pending).
+        They do not consume DB-API call indices."""
+        provider.pre_transaction_lock = TracedLock(self, provider.pre_transaction_lock, 'pre_')
+        provider.transaction_lock = TracedLock(self, provider.transaction_lock, '')
+
+    def lock_events(self, events=None):
+        return [e for e in (self.events if events is None else events) if e['i'] is None]
+
+    def db_events(self, events=None):
+        return [e for e in (self.events if events is None else events) if e['i'] is not None]
 
     # ---- observations --------------------------------------------------------------------------------------------
     def close_counts(self):
@@ -230,7 +250,8 @@ class Tracer(object):
 
     def compact(self, events=None):
         """[(call, kind, con, outcome)] — the canonical form engines compare with model traces"""
-        return [[e['call'], e['kind'], e['con'], 'ok' if e['outcome'] == 'ok' else 'raise'] for e in (self.events if events is None else events)]
+        return [([e['call'], e['kind'], e['con'], 'ok' if e['outcome'] == 'ok' else 'raise'] if e['i'] is not None else [e['call']])
+                for e in (self.events if events is None else events)]
 
     # ---- optional: put the factory under a provider that was bound without `factory=` ---------------------------------
     @contextlib.contextmanager
@@ -249,6 +270,33 @@ class Tracer(object):
         mod.sqlite = proxy
         try: yield self
         finally: mod.sqlite = real
+
+
+class TracedLock(object):
+    """recording wrapper around a `threading.Lock` (see `Tracer.wrap_locks`)"""
+    def __init__(self, tracer, lock, prefix):
+        self.tracer = tracer; self.lock = lock; self.prefix = prefix
+    def _record(self, what, outcome='ok'):
+        ev = {'i': None, 'call': self.prefix + what, 'con': None, 'sql': None, 'kind': None,
+              'thread': threading.current_thread().name, 'outcome': outcome, 'injected': False}
+        with self.tracer._lock: self.tracer.events.append(ev)
+        for h in list(self.tracer.after_call): h(ev)
+    def acquire(self, *args, **kwargs):
+        me = [threading.current_thread().name, self.prefix + 'acquire']
+        self.tracer.lock_waits.append(me)
+        try: r = self.lock.acquire(*args, **kwargs)
+        finally: self.tracer.lock_waits.remove(me)
+        if r: self._record('acquire')
+        return r
+    def release(self):
+        try: self.lock.release()
+        except BaseException as e:
+            self._record('release', type(e).__name__); raise
+        self._record('release')
+    def locked(self):
+        return self.lock.locked()
+    __enter__ = acquire
+    def __exit__(self, *a): self.release()
 
 
 class Watchdog(object):
